@@ -742,3 +742,113 @@ Section Expand.
       rewrite count_occ_repeat_neq by assumption. apply IH; assumption.
   Qed.
 End Expand.
+
+(* ------------------------------------------------------------------------------------------ *)
+(** * What [idx o a < idx o b] means: a occurs before b in o *)
+
+Lemma idx_app_in l m x : In x l -> idx (l ++ m) x = idx l x.
+Proof.
+  induction l as [|y ys IH]; [intros []|]. intros H.
+  rewrite <- app_comm_cons, !idx_cons. destruct (N.eqb_spec x y) as [->|Hne]; [reflexivity|].
+  f_equal. apply IH. destruct H as [H|H]; [congruence|exact H].
+Qed.
+
+Lemma idx_app_notin l m x : ~ In x l -> idx (l ++ m) x = length l + idx m x.
+Proof.
+  induction l as [|y ys IH]; intros H; [reflexivity|].
+  rewrite <- app_comm_cons, idx_tail by (intros ->; apply H; left; reflexivity).
+  rewrite IH by (intros Hin; apply H; right; exact Hin). reflexivity.
+Qed.
+
+Lemma idx_before_iff o a b : NoDup o ->
+  ((In a o /\ In b o /\ idx o a < idx o b) <-> exists l1 l2 l3, o = l1 ++ a :: l2 ++ b :: l3).
+Proof.
+  intros Hnd. split.
+  - intros (Ha & Hb & Hlt).
+    destruct (in_split a o Ha) as (l1 & r & ->).
+    pose proof (NoDup_remove_2 _ _ _ Hnd) as Hna.
+    assert (Hna1 : ~ In a l1) by (intros H; apply Hna, in_or_app; left; exact H).
+    rewrite (idx_app_notin l1 (a :: r) a Hna1), idx_head in Hlt.
+    apply in_app_or in Hb. destruct Hb as [Hb|Hb].
+    + exfalso. rewrite (idx_app_in l1 (a :: r) b Hb) in Hlt.
+      apply idx_lt_iff in Hb. lia.
+    + destruct Hb as [Hb|Hb]; [subst b; rewrite (idx_app_notin l1 (a :: r) a Hna1), idx_head in Hlt; lia|].
+      destruct (in_split b r Hb) as (l2 & l3 & ->). exists l1, l2, l3. reflexivity.
+  - intros (l1 & l2 & l3 & ->).
+    split; [apply in_or_app; right; left; reflexivity|].
+    split; [apply in_or_app; right; right; apply in_or_app; right; left; reflexivity|].
+    pose proof (NoDup_remove_2 _ _ _ Hnd) as Hna.
+    assert (Hna1 : ~ In a l1) by (intros H; apply Hna, in_or_app; left; exact H).
+    rewrite (idx_app_notin l1 _ a Hna1), idx_head.
+    assert (E : l1 ++ a :: l2 ++ b :: l3 = (l1 ++ a :: l2) ++ b :: l3)
+      by (rewrite <- app_assoc; reflexivity).
+    rewrite E in Hnd |- *. pose proof (NoDup_remove_2 _ _ _ Hnd) as Hnb.
+    assert (Hnb1 : ~ In b (l1 ++ a :: l2)) by (intros H; apply Hnb, in_or_app; left; exact H).
+    rewrite (idx_app_notin _ _ b Hnb1), idx_head, app_length. cbn [length]. lia.
+Qed.
+
+(* ------------------------------------------------------------------------------------------ *)
+(** * distance_matrix on an instance of strict complete orders *)
+
+Definition strict_complete (alts : list N) (p : list (list N * N)) : Prop :=
+  NoDup alts /\ Forall (fun om => Permutation alts (fst om)) p.
+
+Lemma strict_complete_row alts p o : strict_complete alts p -> In o (expand_profile p) ->
+  NoDup o /\ Permutation alts o.
+Proof.
+  intros [Hnd Hall] Hin. apply expand_In in Hin. destruct Hin as (k & Hk & _).
+  rewrite Forall_forall in Hall. pose proof (Hall _ Hk) as Hp. cbn [fst] in Hp.
+  split; [eapply Permutation_NoDup; eassumption|exact Hp].
+Qed.
+
+Lemma strict_complete_pair alts p a b : strict_complete alts p ->
+  In a (expand_profile p) -> In b (expand_profile p) -> NoDup a /\ Permutation a b.
+Proof.
+  intros Hs Ha Hb. destruct (strict_complete_row _ _ _ Hs Ha) as [Hnd Hpa].
+  destruct (strict_complete_row _ _ _ Hs Hb) as [_ Hpb].
+  split; [exact Hnd|]. eapply Permutation_trans; [symmetry; exact Hpa|exact Hpb].
+Qed.
+
+Definition entry {D} (zero : D) (M : list (list D)) (i j : nat) : D := nth j (nth i M []) zero.
+
+Lemma dm_instance alts p : strict_complete alts p ->
+  let prof := expand_profile p in
+  let n := list_sum (map (fun om => N.to_nat (snd om)) p) in
+  let Mk := distance_matrix (Ok 0) kendall_tau prof in
+  let Mf := distance_matrix (Ok (0, 1)) spearman_footrule prof in
+  let Ms := distance_matrix (Ok (0, 1)) sertel prof in
+  length prof = n /\
+  length Mk = n /\ length Mf = n /\ length Ms = n /\
+  forall i j, i < n -> j < n ->
+    length (nth i Mk []) = n /\ length (nth i Mf []) = n /\ length (nth i Ms []) = n /\
+    entry (Ok 0) Mk i j = entry (Ok 0) Mk j i /\
+    entry (Ok (0, 1)) Mf i j = entry (Ok (0, 1)) Mf j i /\
+    entry (Ok (0, 1)) Ms i j = entry (Ok (0, 1)) Ms j i /\
+    entry (Ok 0) Mk i i = Ok 0 /\ entry (Ok (0, 1)) Mf i i = Ok (0, 1) /\ entry (Ok (0, 1)) Ms i i = Ok (0, 1) /\
+    (i <> j ->
+      entry (Ok 0) Mk i j = Ok (discordant_pairs (nth i prof []) (nth j prof [])) /\
+      entry (Ok (0, 1)) Mf i j = spearman_footrule (nth i prof []) (nth j prof []) /\
+      entry (Ok (0, 1)) Ms i j = sertel (nth i prof []) (nth j prof [])).
+Proof.
+  intros Hs prof n Mk Mf Ms.
+  assert (Hn : length prof = n) by apply expand_length.
+  split; [exact Hn|]. unfold Mk, Mf, Ms. rewrite !dm_length.
+  split; [exact Hn|]. split; [exact Hn|]. split; [exact Hn|].
+  intros i j Hi Hj. rewrite <- Hn in Hi, Hj. unfold entry.
+  rewrite !dm_row_length by exact Hi.
+  split; [exact Hn|]. split; [exact Hn|]. split; [exact Hn|].
+  split; [|split; [|split]].
+  - apply dm_sym; [|exact Hi|exact Hj]. intros a b Ha Hb.
+    destruct (strict_complete_pair _ _ _ _ Hs Ha Hb). apply kt_sym; assumption.
+  - apply dm_sym; [|exact Hi|exact Hj]. intros a b Ha Hb.
+    destruct (strict_complete_pair _ _ _ _ Hs Ha Hb). apply footrule_sym; assumption.
+  - apply dm_sym; [|exact Hi|exact Hj]. intros a b _ _. apply sertel_sym.
+  - rewrite !(dm_entry _ _ prof i i [] Hi Hi), Nat.eqb_refl.
+    split; [reflexivity|]. split; [reflexivity|]. split; [reflexivity|].
+    intros Hne. rewrite !(dm_entry _ _ prof i j [] Hi Hj).
+    destruct (Nat.eqb_spec i j); [contradiction|].
+    split; [|split; reflexivity].
+    assert (Ha : In (nth i prof []) prof) by (apply nth_In; exact Hi).
+    assert (Hb : In (nth j prof []) prof) by (apply nth_In; exact Hj).
+    destruct (strict_complete_pair _ _ _ _ Hs Ha Hb). apply kt_spec; assumption.
+Qed.
